@@ -349,7 +349,9 @@ def rule_csv_merge(ctx: Ctx) -> RuleResult:
                 elif e.k == "assign" and e.value[0] == "list" and any(is_piece(x) for x in e.value[1:]):
                     consumed.append(e)
             decs = "; ".join(e.brief() for e in body if e.k == "decision")
-            sig = (it.k, decs, len(consumed))
+            # one obligation per distinct behaviour of an iteration: its decisions and what it does (tests folded by
+            # constant propagation, e.g. 'agg is None' on the first iteration, leave no decision behind)
+            sig = (decs, len(consumed), tuple(e.brief() for e in body if e.k in ("mutate", "assign", "substore")))
             if sig in seen:
                 continue
             seen.add(sig)
